@@ -187,3 +187,101 @@ pub fn generate(_ctx: &mut Ctx, seed: u64, i: usize, kind: &str, always_malforme
         ..Default::default()
     }
 }
+
+// ------------------------------------------------------------------------------------------------
+// exhaustive small-scope enumeration (the "exhaustively for every sequence of up to 5 lines ..." quantifiers of C06-C09):
+// case `i` is decoded from mixed-radix digits: configuration first, then the length and the symbols of the line sequence
+
+struct Space {
+    alphabet: &'static [&'static str],
+    configs: Vec<Vec<(&'static str, String)>>, // attribute lists
+    patterns: Vec<&'static str>,
+    inline_variants: usize,
+}
+
+fn space(kind: &str, maxlen: usize) -> Space {
+    let mut configs = vec![];
+    let mut patterns = vec![];
+    match kind {
+        "keep-sorted" => {
+            for dir in ["asc", "desc", "", "ASC"] {
+                for pat in ["", r"x=(?P<value>\d+)", r"\d+"] {
+                    for fmt in ["", "numeric"] {
+                        let mut a = vec![("keep-sorted", dir.to_string())];
+                        if !pat.is_empty() { a.push(("keep-sorted-pattern", pat.to_string())); }
+                        if !fmt.is_empty() { a.push(("keep-sorted-format", fmt.to_string())); }
+                        configs.push(a);
+                    }
+                }
+            }
+            patterns = vec![r"x=(?P<value>\d+)", r"\d+"];
+            // sequences of five lines: a smaller alphabet keeps the enumeration under a million cases
+            let alphabet: &'static [&'static str] = if maxlen >= 5 { &["a", "b", "  b", "", "2", "10", "-3"] } else { &["a", "b", "  b", "ab", "", "2", "10", "9.5", "-3", "x=2", "x=10 y"] };
+            Space { alphabet, configs, patterns, inline_variants: 1 }
+        }
+        "keep-unique" => {
+            for pat in ["", r"x=(?P<value>\d+)", r"x=\d+ \w"] {
+                configs.push(vec![("keep-unique", pat.to_string())]);
+            }
+            patterns = vec![r"x=(?P<value>\d+)", r"x=\d+ \w"];
+            Space { alphabet: &["a", "  a", "a  ", "b", "", "   ", "x=1 k", "x=1 j", "zz", "x=2 k"], configs, patterns, inline_variants: 1 }
+        }
+        "line-pattern" => {
+            for pat in [r"^[a-z]+$", r"[a-z]", r"^abc", r"\d$", r"^\s"] {
+                configs.push(vec![("line-pattern", pat.to_string())]);
+                patterns.push(pat);
+            }
+            Space { alphabet: &["abc", "ABC", "  abc", "abc  ", "", "   ", "abc1", "1abc", "é"], configs, patterns, inline_variants: 1 }
+        }
+        _ => {
+            for op in OPS {
+                for n in 0..7 {
+                    configs.push(vec![("line-count", format!("{op}{n}"))]);
+                }
+            }
+            Space { alphabet: &["x", "", "  ", "y z"], configs, patterns, inline_variants: 2 }
+        }
+    }
+}
+
+fn seqs_up_to(k: usize, len: usize) -> usize {
+    (0..=len).map(|l| k.pow(l as u32)).sum()
+}
+
+/// number of cases of the exhaustive enumeration for `kind` with sequences of at most `maxlen` lines
+pub fn exhaustive_count(kind: &str, maxlen: usize) -> usize {
+    let sp = space(kind, maxlen);
+    sp.configs.len() * sp.inline_variants * seqs_up_to(sp.alphabet.len(), maxlen)
+}
+
+pub fn generate_exhaustive(_ctx: &mut Ctx, kind: &str, maxlen: usize, i: usize) -> Case {
+    let sp = space(kind, maxlen);
+    let nseq = seqs_up_to(sp.alphabet.len(), maxlen);
+    let cfg = &sp.configs[i % sp.configs.len()];
+    let mut r = i / sp.configs.len();
+    let inline_first = r % sp.inline_variants == 1;
+    r /= sp.inline_variants;
+    let mut s = r % nseq;
+    let k = sp.alphabet.len();
+    let mut len = 0;
+    while s >= k.pow(len as u32) { s -= k.pow(len as u32); len += 1; }
+    let mut lines = vec![];
+    for _ in 0..len { lines.push(sp.alphabet[s % k]); s /= k; }
+    let tag = format!("<block{}>", cfg.iter().map(|(k, v)| format!(" {k}={}", quote(v))).collect::<String>());
+    // three layouts in turn: `#` comments, `//` comments, block comments (content may start on the tag's line)
+    let (path, open, close) = if inline_first { ("f.c", "/* ", " */") } else { [("f.py", "# ", ""), ("f.rs", "// ", ""), ("f.c", "/* ", " */")][i % 3] };
+    let mut src = format!("{open}{tag}{close}");
+    src += if inline_first && !lines.is_empty() { " " } else { "\n" };
+    for l in &lines { src += l; src += "\n"; }
+    src += &format!("{open}</block>{close}\n");
+    Case {
+        files: vec![(path.to_string(), Some(src))],
+        walk: vec![path.to_string()],
+        allow: vec![path.to_string()],
+        scan: true,
+        enabled: vec![kind.to_string()],
+        patterns: sp.patterns.iter().map(|p| p.to_string()).collect(),
+        meta: json!({"gen": "val-exhaustive", "kind": kind, "i": i, "nlines": len}),
+        ..Default::default()
+    }
+}
